@@ -113,7 +113,7 @@ def main(c):
               'direction 2: trees generated from the IDL are encoded by the reference encoder in 6 variants (short/long field headers, short/long list headers, unknown fields of every wire type incl. '
               'list<bool>, nested struct/map/set, id gaps > 15) and parsed by carquet; the modelled part must come back unchanged. distinct = structure hashes')
     c.assumptions = ['names contain no NUL byte (C strings)', 'type_length/num_children <= 0, zero scale/precision and empty binary statistics are outside the serialisable domain',
-                     'page-header statistics content is compared only through the reference decoder (carquet\'s parser documents that it skips it)']
+                     'page-header statistics content: the carquet write -> carquet parse round trip compares it (open known finding: the parser skips it); for reference-encoded headers only its presence is compared, so that the same finding is not reported under a second key']
     for k in ('file_metadata_roundtrips', 'page_header_roundtrips', 'carquet_encoded_fm_decoded_by_reference', 'carquet_encoded_ph_decoded_by_reference', 'reference_encoded_fm_parsed_by_carquet',
               'reference_encoded_ph_parsed_by_carquet', 'variant_unknown-fields', 'variant_long-field-headers', 'variant_long-list-headers'):
         c.require(k)
